@@ -37,7 +37,11 @@ MANIFEST = {
             "std::sort is modelled by a stable insertion sort (exact for <= 16 elements, which is "
             "what libstdc++ runs; larger arrays are compared up to the order of equal keys). "
             "Action ids are compared by label (registering the StatusChecker shifts ids). "
-            "Problems: SimpleTestBase and MockTestBase (gamma/electron primaries) only.",
+            "Problems: SimpleTestBase (Compton; target = the first 40-120 iterations, in which "
+            "many slots produce secondaries at once), MockTestBase (gamma/electron primaries) and "
+            "MockTestBase with a uniform 1 T field along-step (electrons spiral in the near-vacuum "
+            "world, are reported looping and are abandoned by the looping thresholds; more "
+            "primaries than slots so that slots are re-used).",
 }
 
 REINDEX = ["none", "shuffle", "status", "particle", "along", "steplimit", "both"]
@@ -115,21 +119,25 @@ def sort_oracle(op, out):
 
 
 # --------------------------------------------------------------------------- event replays
-def gen_prefix(rng, target_id):
+def gen_prefix(rng, target_id, prob="mock"):
     ops = []
     # Stepper::warm_up requires a state that has not transported anything yet
     # (counters().num_active == 0; after a completed event num_active still holds the last
     # step's count), so a warm-up can only open the history
     if rng.chance(1, 3):
         ops.append("w")
+    # a complete event of the Compton problem takes thousands of iterations: there the history
+    # consists of truncated events (k iterations, then the state is reset) and aborted ones
+    ev = (lambda i, s: "t%d:%d:%d" % (i, s, rng.range(10, 80))) if prob == "simple" \
+        else (lambda i, s: "e%d:%d" % (i, s))
     for _ in range(rng.below(4)):
         k = 1 + rng.below(5)
         if k <= 2:
-            ops.append("e%d:%d" % (rng.below(50), rng.below(1000)))
+            ops.append(ev(rng.below(50), rng.below(1000)))
         elif k == 3:
             ops.append("a%d:%d:%d" % (rng.below(50), rng.below(1000), rng.range(1, 6)))
         elif k == 4:
-            ops.append("e%d:%d" % (target_id, rng.below(1000)))      # same id, other primaries
+            ops.append(ev(target_id, rng.below(1000)))      # same id, other primaries
         else:
             ops.append("a%d:%d:%d" % (target_id, rng.below(1000), rng.range(1, 4)))
     return ops
@@ -209,7 +217,11 @@ def run(ctx):
         "event_result_is_function_of (noninterference induction given slot-locality). "
         "TESTED ONLY: that the C++ actions are slot-local and read no left-over state — by "
         "differential replays of the same event after random histories and under all re-indexing "
-        "orders / timing / status checker, compared bitwise; the exact correspondence of "
+        "orders / timing / status checker, compared bitwise per (track id, step) including parent "
+        "ids, on three problem families (continuous loss; magnetic field with looping counters "
+        "and slot re-use; Compton with several slots producing secondaries per iteration — the "
+        "evidence counts those iterations and the looping high-water mark, and the check fails if "
+        "they did not occur); the exact correspondence of "
         "sort_tracks / count_tracks_per_action / backfill_action_count with the model.")
     exe, log, _ = vlib.build_harness("repro", LIBS)
     if exe is None:
@@ -248,32 +260,56 @@ def run(ctx):
             break
 
     # ---- (b) differential event replays
+    # Three families of target events, all present in every run:
+    #  mock       continuous loss, no secondaries: left-over physics/geometry state
+    #  mockfield  uniform magnetic field along-step: electrons spiralling in the near-vacuum world
+    #             are reported LOOPING, the per-slot looping counters become non-zero and tracks
+    #             are abandoned by the looping thresholds; a later track re-uses the slot
+    #  simple     Compton: many slots produce secondaries in the SAME iteration, so secondary
+    #             track ids / parent ids are assigned while a re-indexing order is in effect
+    #             (target = first k iterations of the event, reported in full)
     targets = []
-    n_t = 3 if quick else 30
+    n_t = 4 if quick else 30
+    fam = ["mock", "mockfield", "simple", "simple"]
     for k in range(n_t):
-        prob = "mock" if k % 3 != 2 else "simple"
-        slots = ctx.rng.choice([1, 2, 3, 5, 8, 13, 32])
-        prims = ctx.rng.range(1, 6) if prob == "simple" else ctx.rng.range(1, 24)
+        prob = fam[k % 4]
+        if prob == "simple":
+            slots = ctx.rng.choice([8, 13, 16, 32])
+            prims = ctx.rng.range(max(4, slots // 2), slots + 4)
+        elif prob == "mockfield":
+            slots = ctx.rng.choice([2, 3, 4, 6, 8])
+            prims = ctx.rng.range(slots + 1, 3 * slots + 2)      # more primaries than slots: re-use
+        else:
+            slots = ctx.rng.choice([1, 2, 3, 5, 8, 13, 32])
+            prims = ctx.rng.range(1, 24)
         targets.append((prob, slots, prims, ctx.rng.below(40), ctx.rng.below(1000)))
     jobs = []        # (target index, class, cfg, script)
     for ti, (prob, slots, prims, tid, seed) in enumerate(targets):
         base = "prob=%s slots=%d prims=%d" % (prob, slots, prims)
-        tgt = "e%d:%d" % (tid, seed)
+        tgt = ("t%d:%d:%d" % (tid, seed, ctx.rng.range(40, 120))) if prob == "simple" \
+            else "e%d:%d" % (tid, seed)
         jobs.append((ti, "reindex", base + " order=none", [tgt]))                 # reference
         n_var = 8 if quick else 30
         for v in range(n_var):
             order = REINDEX[v % len(REINDEX)] if v < len(REINDEX) else ctx.rng.choice(REINDEX)
             cfg = base + " order=%s timing=%d checker=%d" % (order, ctx.rng.below(2), ctx.rng.below(2))
-            jobs.append((ti, "reindex", cfg, gen_prefix(ctx.rng, tid) + [tgt]))
+            # every re-indexing order is also run once WITHOUT history, so that a pure
+            # order dependence and a pure history dependence are told apart
+            hist = [] if v < len(REINDEX) and v % 2 == 0 else gen_prefix(ctx.rng, tid, prob)
+            jobs.append((ti, "reindex", cfg, hist + [tgt]))
         jobs.append((ti, "init_charge", base + " order=init_charge", [tgt]))
         for v in range(2 if quick else 5):
             cfg = base + " order=init_charge timing=%d checker=%d" % (ctx.rng.below(2), ctx.rng.below(2))
-            jobs.append((ti, "init_charge", cfg, gen_prefix(ctx.rng, tid) + [tgt]))
+            jobs.append((ti, "init_charge", cfg, gen_prefix(ctx.rng, tid, prob) + [tgt]))
         # negative control: one more slot => other RNG streams => a different stream is expected
         jobs.append((ti, "control", "prob=%s slots=%d prims=%d order=none" % (prob, slots + 1, prims), [tgt]))
     with ThreadPoolExecutor(max_workers=8) as ex:
         outs = list(ex.map(lambda j: run_event(exe, j[2], j[3]), jobs))
     ref = {}
+    fam_stats = {}
+
+    def order_of(cfg):
+        return dict(w.split("=", 1) for w in cfg.split())["order"]
     n_cmp = n_diff_control = 0
     failing = []
     seen_scripts = set()
@@ -284,6 +320,17 @@ def run(ctx):
             failing.append((ti, cls, cfg, script, "harness: " + " ".join(out[-2:])[:300]))
             continue
         seen_scripts.add((cfg, tuple(script)))
+        kvs = dict(w.split("=", 1) for w in got.split() if "=" in w)
+        if cls != "control":
+            fam_stats.setdefault(prob, {"runs": 0, "multisec_iterations": 0, "looping_hw_max": 0,
+                                        "delivered_steps": 0})
+            fs = fam_stats[prob]
+            fs["runs"] += 1
+            fs["multisec_iterations"] += int(kvs.get("multisec", 0))
+            fs["looping_hw_max"] = max(fs["looping_hw_max"], int(kvs.get("loophw", 0)))
+            fs["delivered_steps"] += int(kvs.get("steps", 0))
+            if order_of(cfg) != "none" and int(kvs.get("multisec", 0)) > 0:
+                fs["reindexed_runs_with_multisec"] = fs.get("reindexed_runs_with_multisec", 0) + 1
         if cls == "control":
             if (ti, "reindex") in ref and got != ref[(ti, "reindex")][0]:
                 n_diff_control += 1
@@ -313,6 +360,18 @@ def run(ctx):
                        "result_B": got, "first_difference": detail,
                        "contradicts": "C06 event_result_is_function_of"})
 
+    # the replays are only worth something if the situations they are about really occurred
+    fsim, ffld = fam_stats.get("simple", {}), fam_stats.get("mockfield", {})
+    if not failing and fsim.get("reindexed_runs_with_multisec", 0) == 0:
+        ctx.violation("coverage:no-concurrent-secondaries-under-reindexing",
+                      "no replay under a re-indexing order had an iteration in which two or more "
+                      "slots produced secondaries: the order-independence of secondary track/parent "
+                      "ids was not exercised", {"families": fam_stats}, found_input=False)
+    if not failing and ffld.get("looping_hw_max", 0) == 0:
+        ctx.violation("coverage:no-looping-counters",
+                      "no field replay made a per-slot looping counter non-zero: re-use of a slot "
+                      "after a looping track was not exercised", {"families": fam_stats},
+                      found_input=False)
     if broken and not ctx.violations:
         ctx.violation("unproved", "; ".join(broken)[:600],
                       {"no_longer_checks": broken, "diverging": diverged[:3]}, found_input=False)
@@ -326,6 +385,7 @@ def run(ctx):
         "reindex_ops": len(ops), "corpus_ops": n_corpus, "reindex_diverging": len(diverged),
         "event_targets": [dict(zip(["prob", "slots", "prims", "event", "seed"], t)) for t in targets],
         "event_runs": len(jobs), "event_comparisons": n_cmp, "event_mismatches": len(failing),
+        "families": fam_stats,
         "controls_that_differ": n_diff_control, "controls": len(targets),
         "samples": [ops[n_corpus], "run " + jobs[1][2] + " script=" + ",".join(jobs[1][3])],
         "correspondence_broken": broken,
